@@ -14,11 +14,15 @@
 (* programs as well as over schedules.  Client 1 is the controlling thread  *)
 (* (start / stop / everything); further clients only enqueue and join.      *)
 (*                                                                         *)
-(* FixJoin / FixGrow select the repaired algorithm (TRUE, what /repo        *)
-(* contains after the fix: commits) or the original one (FALSE), kept so    *)
-(* that the model reproduces the two defects found on the pinned commit:    *)
+(* FixJoin / FixGrow / FixStart select the repaired algorithm (TRUE, what    *)
+(* /repo contains after the fix: commits) or the original one (FALSE), kept *)
+(* so that the model reproduces the defects found on the pinned commit:     *)
 (*   ~FixJoin : join() returns True as soon as the queue is empty           *)
 (*   ~FixGrow : a worker retires on a stale active count and strands a task *)
+(*   ~FixStart: start() increments the pending counter without the lock; a  *)
+(*              second client's enqueue() between its read and its write is *)
+(*              overwritten, the counter stays too low and a task is        *)
+(*              stranded below max_threads (found by TLC -simulate, max 3)  *)
 (***************************************************************************)
 EXTENDS Naturals, Integers, Sequences, FiniteSets, TLC
 
@@ -27,7 +31,7 @@ CONSTANTS NW,        \* worker ids 1..NW (bound on simultaneously existing threa
           Tasks,     \* set of task ids (positive naturals)
           MaxOps,    \* operation budget per client: function Clients -> Nat
           WithClear, \* is clear() (on a pool in any state) among the operations of the controlling client?
-          FixJoin, FixGrow
+          FixJoin, FixGrow, FixStart
 
 W == 1..NW
 Clients == 1..NC
@@ -48,7 +52,7 @@ taskV == <<ts, execs, released>>
 ctlV  == <<cpc, cop, cl, nops, phase, obs>>
 vars  == <<cfgV, poolV, workV, taskV, ctlV>>
 
-Cl0 == [n |-> 0, k |-> 0, i |-> 0, w |-> {}, snap |-> {}, sawstop |-> FALSE]
+Cl0 == [n |-> 0, k |-> 0, i |-> 0, w |-> {}, snap |-> {}, sawstop |-> FALSE, r |-> 0]
 Obs0 == [joinRet |-> "none", joinSnap |-> {}, clean |-> TRUE]
 
 InitWithCap(mx, mn, g, cap) ==
@@ -110,11 +114,18 @@ S3(c) == /\ cpc[c] = "s3"                                   \* qsize() + arithme
             IN SetCl(c, [cl[c] EXCEPT !.n = np, !.k = nt - np, !.i = 0])
          /\ Goto(c, "s4")
          /\ UNCHANGED <<cfgV, poolV, workV, taskV, cop, nops, phase, obs>>
-S4(c) == /\ cpc[c] = "s4"                                   \* loop 1 head: nb_pending += 1 (unlocked)
+\* loop 1 head: "self.__nb_pending_task += 1".  Repaired (FixStart): under the pool lock, one step.  Original: WITHOUT
+\* the lock - the read and the write of the counter are two steps, another thread's (locked) update may fall between
+\* them and is then overwritten
+S4(c) == /\ cpc[c] = "s4"
          /\ IF cl[c].i < cl[c].n
-            THEN nbP' = nbP + 1 /\ Goto(c, "s5") /\ UNCHANGED cl
+            THEN IF FixStart
+                 THEN lock = None /\ nbP' = nbP + 1 /\ Goto(c, "s5") /\ UNCHANGED cl
+                 ELSE Goto(c, "s4w") /\ SetCl(c, [cl[c] EXCEPT !.r = nbP]) /\ UNCHANGED nbP
             ELSE Goto(c, "s6") /\ SetCl(c, [cl[c] EXCEPT !.i = 0]) /\ UNCHANGED nbP
          /\ UNCHANGED <<cfgV, stop, q, unfinished, lock, nbT, nbA, tlist, workV, taskV, cop, nops, phase, obs>>
+S4w(c) == /\ cpc[c] = "s4w" /\ nbP' = cl[c].r + 1 /\ Goto(c, "s5")
+          /\ UNCHANGED <<cfgV, stop, q, unfinished, lock, nbT, nbA, tlist, workV, taskV, cop, cl, nops, phase, obs>>
 
 FreeW == {w \in W : wpc[w] \in {"unborn", "dead"}}
 NewW == CHOOSE w \in FreeW : \A v \in FreeW : w <= v
@@ -262,7 +273,7 @@ P8(c) == /\ cpc[c] = "p8" /\ unfinished = 0 /\ Ret(c) /\ phase' = EndPhase(c)
          /\ IF cop[c][1] = "clear" THEN JoinDone(c, "true") ELSE UNCHANGED obs
          /\ UNCHANGED <<cfgV, poolV, workV, taskV, cl>>
 
-ClientStep(c) == Release(c) \/ S1(c) \/ S2(c) \/ S3(c) \/ S4(c) \/ S5(c) \/ S5a(c) \/ S5b(c) \/ S6(c) \/ S6a(c) \/ S6b(c)
+ClientStep(c) == Release(c) \/ S1(c) \/ S2(c) \/ S3(c) \/ S4(c) \/ S4w(c) \/ S5(c) \/ S5a(c) \/ S5b(c) \/ S6(c) \/ S6a(c) \/ S6b(c)
                  \/ E1(c) \/ E1w(c) \/ E1x(c) \/ E2(c) \/ E2a(c) \/ E3(c) \/ J1(c) \/ J2(c)
                  \/ P1(c) \/ P2(c) \/ P3(c) \/ P3b(c) \/ P4(c) \/ P5(c) \/ P6(c) \/ P6b(c) \/ P6c(c) \/ P7(c) \/ P8(c)
 Client(c) == (\E op \in Ops(c) : Fetch(c, op)) \/ ClientStep(c)
